@@ -102,17 +102,17 @@ def run(ctx, model):
     if bad:
         ctx.note("uniformity precondition failed: " + "; ".join(bad[:3]))
     ctx.exhaustive = not bad
-    ms = MM.std_matches(TEXT)
     abs_wrong = {}
-    for meth in METHODS:
+    for meth, (mlabel, mfun) in itertools.product(METHODS, (("", MM.std_matches), (" [twelve groups]", MM.wide_matches))):
+        ms = mfun(TEXT)
         f = model.method(PRE, "Pregex", meth)
         has_rel = "relative_to_match" in f.params
         for include_empty, relative, compiled in itertools.product((True, False), (False, True) if has_rel else (False,), (False, True)):
             kw = {"include_empty": include_empty}
             if has_rel:
                 kw["relative_to_match"] = relative
-            kind, v, hooks, o = MM.run_method(model, meth, [TEXT], kw, compiled=compiled, matches_for=MM.std_matches)
-            inp = f"{meth}(include_empty={include_empty}{', relative_to_match=' + str(relative) if has_rel else ''}) compiled={compiled}"
+            kind, v, hooks, o = MM.run_method(model, meth, [TEXT], kw, compiled=compiled, matches_for=mfun)
+            inp = f"{meth}(include_empty={include_empty}{', relative_to_match=' + str(relative) if has_rel else ''}) compiled={compiled}{mlabel}"
             if kind == "raise":
                 ctx.instance("R-SHAPE", key=inp)
                 ctx.violation("R-SHAPE", f.relpath, f.short, "<raise>", f"{meth} raises {v.name}", f.node.lineno, inp=inp)
